@@ -275,6 +275,19 @@ CONTEXTS = [lambda k: k, lambda k: ("bin", "+", k, A_), lambda k: ("bin", "+", A
 KINDS = ("list", "map", "call", "dotcall", "dotcall0", "msg")
 N_CONTAINERS = len(KINDS) * 4 * len(CONTEXTS)
 
+
+def dup_containers():
+    """Aggregates whose entries repeat: the same key text twice (legal syntax; only evaluation rejects it), the same field
+    name twice, the same element twice, key equal to value.  A dump that pairs entries through a mapping loses them."""
+    one = LIT["1"]
+    out = [("map", ((A_, B_), (A_, one))), ("map", ((A_, A_), (A_, A_))), ("map", ((A_, B_), (B_, A_), (A_, one))), ("map", ((one, A_), (one, B_))), ("map", ((LIT['"s"'], A_), (LIT['"s"'], B_))),
+           ("map", ((A_, B_), (B_, B_))), ("msg", ID("M"), (("f", A_), ("f", B_))), ("msg", ID("M"), (("f", A_), ("g", A_), ("f", one))), ("msg", ID("M"), (("f", A_), ("f", A_))),
+           ("list", (A_, A_)), ("list", (A_, B_, A_)), ("call", "f", (A_, A_)), ("dotcall", X_, "f", (A_, A_)), ("dotcall0", "f", (A_, A_))]
+    return out
+
+
+N_DUP_CONTAINERS = len(dup_containers()) * len(CONTEXTS)
+
 # ---- adjacent-operator forms (text) -----------------------------------------------------------------
 U_, M_ = ("!", "-"), (".f", ".f(x)", "[x]", "{f: x}")
 FORMS = [
@@ -537,6 +550,11 @@ def small_shard(task):
         for t in items:
             check_term(part, t, "containers", ALL3)
         part.space("container arities", 0, len(items))
+    elif what == "dup-containers":
+        items = [c(k) for k in dup_containers() for c in CONTEXTS][lo:hi]
+        for t in items:
+            check_term(part, t, "dup-containers", ALL3)
+        part.space("containers with repeated entries", 0, len(items))
     elif what == "ws":
         n = 0
         for t, toks, glue in ws_bases(maxtok)[lo:hi]:
@@ -609,6 +627,56 @@ def shape_shard(task):
     return part
 
 
+# ---- pair histories: a text parsed alone and after every other text in one process (mc/pairhist.py) -----------
+# The alphabet holds texts that differ only where a careless cache key would not look: blanks inside a literal, a
+# comment that ends at a line break or at the end of the text, letter case, a line break between tokens, parentheses.
+PH_TEXTS = ['x == "a  b" || y', 'x == "a b" || y', 'x == "a\tb" || y', "x == 'a  b' || y", 'a // c + b * 2', 'a // c\n + b * 2', 'a + b * 2', 'a +\nb * 2', 'a + b*2', '(a + b) * 2', 'a + (b * 2)',
+            'A + b * 2', 'a + B * 2', '"""a\n\nb"""', '"""a\nb"""', '"""a b"""', 'b"a  b"', 'b"a b"', 'r"a  b"', 'f(a ,b)', 'f(a, b)', 'f(a)(b)', 'x.f (a)', 'x . f(a)', 'x.F(a)', '{a: 1, a: 2}', '{a: 2}', '{a: 1, b: 2}',
+            '[a, a]', '[a]', 'a ? b : c', 'a ? b : c // d', 'a ?b: c', 'true', 'True', ' true ', 'a && b || c', 'a && (b || c)', '1', '1 ', '01', '-1', '- 1', '1u', '1 u']
+
+
+def _ph_tree(o):
+    if o[0] != "T":
+        return tuple(o)
+    t = o[1]
+
+    def flat(n):
+        return (str(n.data), tuple(flat(c) for c in n.children)) if hasattr(n, "children") else (str(getattr(n, "type", "?")), str(n))
+    try:
+        import celpy.celparser as cp
+        d = cp.tree_dump(t)
+    except Exception as ex:  # noqa
+        d = f"raises-{type(ex).__name__}"
+    return ("T", runner.jhash(flat(t)), d)
+
+
+def ph_terms():
+    return [[cls, t] for cls in ("lark", "transpiler") for t in PH_TEXTS]
+
+
+def ph_step(term):
+    """Parse with a fresh CELParser of the given tree class; outcome = digest of the tree and its dump (or the rejection)."""
+    import celpy.celparser as cp
+    import lark
+    from celpy.evaluation import TranspilerTree
+    try:
+        p = cp.CELParser(tree_class=lark.Tree if term[0] == "lark" else TranspilerTree)
+        o = ("T", p.parse(term[1]))
+    except cp.CELParseError as ex:
+        o = ("P", ex.line, ex.column)
+    except Exception as ex:  # noqa
+        o = ("X", type(ex).__name__)
+    return _ph_tree(o)
+
+
+def ph_label(term):
+    return f"[{term[0]}] {term[1]!r}"
+
+
+def ph_outcome_label(o):
+    return o[0]
+
+
 def pinned_validation(ctx):
     """Soundness rule 2: the dump texts pinned by /repo/tests/test_parser.py must be, for the reference
     parser, the same term as their source (empty-list sources, which the tests call degenerate, excepted)."""
@@ -670,7 +738,7 @@ def run(ctx):
                        "acceptance of non-CEL text is checked only for the ?: middle operand, which the statement names",
                        "shapes with 4 operators use rotation 0 only; quick uses 4 of the 13 rotations"]
     maxtok = MAXTOK[ctx.tier]
-    small = [("terms1", lo, hi, 0) for lo, hi in runner.shards(N_TERMS1, 16)] + [("containers", 0, N_CONTAINERS, 0), ("keywords", 0, N_KEYWORDS, 0)] \
+    small = [("terms1", lo, hi, 0) for lo, hi in runner.shards(N_TERMS1, 16)] + [("containers", 0, N_CONTAINERS, 0), ("dup-containers", 0, N_DUP_CONTAINERS, 0), ("keywords", 0, N_KEYWORDS, 0)] \
         + [("adjacent", lo, hi, 0) for lo, hi in runner.shards(N_ADJACENT, 12)] + [("ws", lo, hi, maxtok) for lo, hi in runner.shards(len(ws_bases(maxtok)), 64)]
     big = []
     chunk = 1500 if not ctx.thorough else 6000
@@ -684,8 +752,13 @@ def run(ctx):
     n_lit = len(literal_texts(lit_levels))
     ctx.run_shards(literal_shard, [(lo, hi, lit_levels) for lo, hi in runner.shards(n_lit, 16)])
     ctx.run_shards(name_position_shard, [0])
-    card = {"literal spellings x positions (dump round trip)": len(LIT_SPELLINGS) * (len(LIT_POSITIONS) + len(LIT_POSITIONS) * (len(LIT_POSITIONS) - 1)), "adjacent-operators": N_ADJACENT, "terms<=1op x all atoms": N_TERMS1, "keyword positions": N_KEYWORDS, "literal words in name positions": N_NAMEPOS,
-            "container arities": N_CONTAINERS, "whitespace variants": ws_cardinality(maxtok)}
+    from .. import pairhist
+    n_ph = pairhist.run(ctx, __name__)
+    ctx.rule += (f" (6) {N_DUP_CONTAINERS} aggregates with repeated entries (same key text, same field name, same element) in every context. (7) pair histories: each of {len(ph_terms())} texts "
+                 "(pairs that differ only by blanks inside a literal, by where a comment ends, by letter case, by parentheses; both tree classes) parsed alone and after every other one in "
+                 "the same process, started from the pristine process state: tree and dump must be what the text gives alone.")
+    card = {pairhist.SPACE: n_ph, "literal spellings x positions (dump round trip)": len(LIT_SPELLINGS) * (len(LIT_POSITIONS) + len(LIT_POSITIONS) * (len(LIT_POSITIONS) - 1)), "adjacent-operators": N_ADJACENT, "terms<=1op x all atoms": N_TERMS1, "keyword positions": N_KEYWORDS, "literal words in name positions": N_NAMEPOS,
+            "container arities": N_CONTAINERS, "containers with repeated entries": N_DUP_CONTAINERS, "whitespace variants": ws_cardinality(maxtok)}
     for n in range(1, kmax + 1):
         card[f"shapes with {n} operators x {len(rots[n])} rotation(s)"] = nshapes(n) * len(rots[n])
     for name, s in ctx.part.spaces.items():
@@ -701,6 +774,9 @@ def run(ctx):
 
 def replay(w):
     wit = w["witness"]
+    if wit.get("space") == "pairhist":
+        from .. import pairhist
+        return pairhist.replay(w)
     part = runner.Part()
     print("replaying", wit)
     if wit["check"] == "term":
